@@ -9,6 +9,9 @@ from ..core import same, HarnessError, snap, snap_same
 ID = 'C15'
 TITLE = 'tree flatten/rebuild inverse; tree_update non-destructive deep merge'
 LEVEL = 'exploration'
+TECHNIQUE = 'runtime monitoring: own flatten / rebuild / recursive-merge model + identity-aware deep snapshots of every branch of t and u'
+LEVEL_TEXT = 'Held on the trees and (t,u) pairs explored incl. leaf-vs-branch conflicts, ignore lists, aliased branches, 1-4 wildcard patterns. A check says held on K observed executions, never verified.'
+LEVEL_NOTE = 'Trusted: the merge model; results compared as mappings, root type separately.'
 RULE = ('random trees over a 5-letter key alphabet (forcing overlap), depth<=4, branching<=4, leaves None/int/str/list, dict/Dict/dictattr roots with mixed branch types, no empty '
         'branches; pairs (t,u) with overlapping branches, leaf-vs-branch conflicts and ignore lists; table<->tree with patterns of 1-4 wildcards (wildcard- and literal-terminated); '
         'non-trivial = (t,u) sharing >=1 branch at depth>=2, or a pattern with >=2 rows; distinct = canonical hash')
